@@ -1654,6 +1654,14 @@ class Interp:
                 return AList(a.items + b.items)
             if isinstance(a, bytes) and isinstance(b, bytes):
                 return a + b
+            _byteslike = lambda x: isinstance(x, bytes) or (isinstance(x, ExtObj) and x.kind in ("bytes:frame", "bytes:cat")) or (isinstance(x, AList) and x.kind == "bytearray")  # noqa: E731
+            if _byteslike(a) and _byteslike(b):
+                if isinstance(a, AList) and inplace:
+                    if not isinstance(b, (bytes, AList)):
+                        raise self.unsupported("bytearray += serialised frame")
+                    a.items.extend(b if isinstance(b, bytes) else b.items)
+                    return None
+                return self.models.concat_bytes(self, a, b)
         if op is ast.Mult:
             for x, y in ((a, b), (b, a)):
                 if isinstance(y, int) and not isinstance(y, bool) or isinstance(y, bool):
